@@ -67,6 +67,7 @@ pub fn elementwise(r: &dyn Runner, tier: Tier, st: &St, out: &mut Vec<Edge>) {
     }
     out.push(Edge::Clear(Api::Erased));
     out.push(Edge::Clear(Api::Typed));
+    out.push(Edge::DropVec);
     // moving the vector value (for inline backends the storage moves too): nothing may depend on where the vector lives
     for slot in 0..2u8 { for then in [0u8, 1, 3, 5, 10] { out.push(Edge::Relocate { slot, then }); } }
     for api in [Api::Erased, Api::Typed] {
@@ -179,6 +180,21 @@ pub fn adaptors(_r: &dyn Runner, _tier: Tier, st: &St, ranges_only: bool, out: &
             if !ranges_only { for kind in [IterKind::Iter, IterKind::IterMut] { out.push(Edge::IterAdapt { api, kind, op }); } }
         }
     }
+}
+
+/// a reduced set of adaptor edges for fault enumeration (C06): the skipping adaptors (nth, nth_back, skip, step_by), whose skipped
+/// elements are destroyed by the iterator - a destructor that panics there must not lead to a second destruction when the iterator drops
+pub fn adaptors_faulty(_r: &dyn Runner, st: &St, out: &mut Vec<Edge>) {
+    let len = st.len as usize;
+    for pre in 0..2u8 { for which in [0u8, 1, 2, 4] { for n in 1..=2u8 {
+        let op = pre << 6 | which << 3 | n;
+        for a in 0..=len { for b in a..=len { if b - a >= 2 {
+            for api in [Api::Erased, Api::Typed] {
+                out.push(Edge::DrainAdapt { api, a: a as u8, b: b as u8, op });
+                out.push(Edge::SpliceAdapt { api, a: a as u8, b: b as u8, op, rn: 1 });
+            }
+        } } }
+    } } }
 }
 
 /// iterator protocol (C14)
@@ -472,7 +488,7 @@ pub fn edges_for(prop: Prop, tier: Tier, r: &dyn Runner, st: &St) -> Vec<Edge> {
         Prop::C13 => { handles(r, tier, st, &mut v); movers(&mut v); }
         Prop::C18 => { rawparts(r, tier, st, &mut v); capacity(r, tier, st, bounds(prop, tier).lmax, &mut v); elementwise(r, tier, st, &mut v); ranges(r, tier, st, true, &mut v); clones(r, tier, st, &mut v); }
         Prop::C06 => {
-            elementwise(r, tier, st, &mut v); ranges(r, tier, st, true, &mut v); clones(r, tier, st, &mut v); lazies(r, tier, st, &mut v);
+            elementwise(r, tier, st, &mut v); ranges(r, tier, st, true, &mut v); clones(r, tier, st, &mut v); lazies(r, tier, st, &mut v); adaptors_faulty(r, st, &mut v);
             // a splice that exceeds a fixed capacity panics by contract; a second (injected) panic while it unwinds would abort the
             // process by Rust's own rules, which says nothing about the vector: such edges get no fault enumeration
             if let Some(cap) = r.fixed_cap() {
@@ -519,7 +535,9 @@ pub fn reports(prop: Prop, class: Class, kind: &str, e: &Edge) -> bool {
         Prop::C04 => matches!(class, Class::Type | Class::Vec | Class::Own),
         // reads of unwritten / moved-out / stale memory surface as garbage (poison, broken canary) in a result
         Prop::C05 => class == Class::Mem || (class == Class::Own && matches!(kind, "garbage-visible" | "garbage-drop" | "clone-of-garbage")),
-        Prop::C06 | Prop::C07 => matches!(class, Class::Own | Class::Vec | Class::Mem),
+        // (a heap block that is never released although every vector was dropped is not "some elements are leaked")
+        Prop::C06 => matches!(class, Class::Own | Class::Vec | Class::Mem) || (class == Class::Alloc && kind == "heap-leak"),
+        Prop::C07 => matches!(class, Class::Own | Class::Vec | Class::Mem),
         Prop::C10 => matches!(class, Class::Cap | Class::Vec),
         // "splice beyond it leaves them valid": after a capacity panic no destroyed / moved-out value may be visible or destroyed again
         Prop::C11 => matches!(class, Class::Cap | Class::Vec | Class::Alloc) || (class == Class::Own && matches!(kind, "dead-visible" | "garbage-visible" | "duplicate" | "double-drop" | "garbage-drop")),
